@@ -607,41 +607,81 @@ func mapChain(w *World, f *ssa.Function, v ssa.Value, depth int) (ssa.Value, Sta
 			return v, Violated, "returned list is not built from an empty list by appends only (" + describeValue(v) + ")", 0
 		}
 	}
-	if len(ai.Appends) != 1 {
-		return v, Violated, fmt.Sprintf("the list is built by %d append sites, exactly one is required (one output per input)", len(ai.Appends)), 0
+	for _, ap := range ai.Appends {
+		elems, spread := appendedElems(ap)
+		if spread != nil || len(elems) != 1 {
+			return v, Violated, "an append does not add exactly one element", 0
+		}
 	}
-	ap := ai.Appends[0]
-	elems, spread := appendedElems(ap)
-	if spread != nil || len(elems) != 1 {
-		return v, Violated, "the append does not add exactly one element", 0
-	}
+	// the outermost range loop that contains every append site
 	var loop *sliceRange
 	for _, sr := range findSliceRanges(f) {
-		if sr.blocks()[ap.Block()] && (loop == nil || loop.blocks()[sr.Header]) {
-			if loop == nil || sr != loop {
-				// keep the outermost loop that contains the append
-				if loop == nil || sr.blocks()[loop.Header] {
-					loop = sr
-				}
+		all := true
+		for _, ap := range ai.Appends {
+			if !sr.blocks()[ap.Block()] {
+				all = false
 			}
+		}
+		if all && (loop == nil || sr.blocks()[loop.Header]) {
+			loop = sr
 		}
 	}
 	if loop == nil {
+		if len(ai.Appends) > 1 {
+			for _, sr := range findSliceRanges(f) {
+				for _, ap := range ai.Appends {
+					if sr.blocks()[ap.Block()] {
+						return v, Violated, fmt.Sprintf("the list is built by %d append sites, some of them outside the loop over the input (not one output per input)", len(ai.Appends)), 0
+					}
+				}
+			}
+		}
 		return v, Undecided, "the append is not inside a range loop over a list", 0
 	}
 	blocks := loop.blocks()
-	for _, sr := range findSliceRanges(f) {
-		if sr != loop && blocks[sr.Header] && sr.blocks()[ap.Block()] {
-			return v, Violated, "the append is inside a nested loop (more than one output per input)", 0
+	stop := map[*ssa.BasicBlock]bool{loop.Done: true}
+	for _, ap := range ai.Appends {
+		stop[ap.Block()] = true
+		for _, sr := range findSliceRanges(f) {
+			if sr != loop && blocks[sr.Header] && sr.blocks()[ap.Block()] {
+				return v, Violated, "the append is inside a nested loop (more than one output per input)", 0
+			}
+		}
+		for _, mr := range findMapRanges(f) {
+			if blocks[mr.Header] && mr.blocks()[ap.Block()] {
+				return v, Violated, "the append is inside a nested loop (more than one output per input)", 0
+			}
 		}
 	}
-	for _, mr := range findMapRanges(f) {
-		if blocks[mr.Header] && mr.blocks()[ap.Block()] {
-			return v, Violated, "the append is inside a nested loop (more than one output per input)", 0
-		}
-	}
-	if reachableFrom(loop.Body, map[*ssa.BasicBlock]bool{ap.Block(): true, loop.Done: true})[loop.Header] {
+	if reachableFrom(loop.Body, stop)[loop.Header] {
 		return v, Violated, "some iteration returns to the loop header without appending (an input element is skipped)", 0
+	}
+	// alternative append sites (one per branch) are fine; two on one path are not
+	for _, ap := range ai.Appends {
+		n := 0
+		for _, in := range ap.Block().Instrs {
+			if c, ok := in.(*ssa.Call); ok {
+				for _, a2 := range ai.Appends {
+					if a2 == c {
+						n++
+					}
+				}
+			}
+		}
+		after := map[*ssa.BasicBlock]bool{}
+		for _, s := range ap.Block().Succs {
+			for b := range reachableFrom(s, map[*ssa.BasicBlock]bool{loop.Header: true}) {
+				after[b] = true
+			}
+		}
+		for _, a2 := range ai.Appends {
+			if a2 != ap && after[a2.Block()] && a2.Block() != ap.Block() {
+				n++
+			}
+		}
+		if n > 1 {
+			return v, Violated, "an iteration can append twice (more than one output per input)", 0
+		}
 	}
 	src, st, msg, k := mapChain(w, f, loop.X, depth+1)
 	return src, st, msg, k + 1
@@ -671,7 +711,7 @@ func ruleWrapper(w *World, r *Report, ws wrapperSpec) {
 	pos := w.Pos(f.Pos())
 	calls := callsTo(f, func(x *ssa.Function) bool { return x == g })
 	if len(calls) != 1 {
-		r.add("WRAPPER", key+" / delegation", pos, Violated, fmt.Sprintf("expected exactly one call of %s, found %d", ws.Extended, len(calls)))
+		r.add("WRAPPER", key+" / delegation", pos, Undecided, fmt.Sprintf("expected exactly one call of %s, found %d", ws.Extended, len(calls)))
 		return
 	}
 	c := calls[0]
@@ -698,7 +738,11 @@ func ruleWrapper(w *World, r *Report, ws wrapperSpec) {
 		if ok {
 			r.add("WRAPPER", key+" / input conversion", w.Pos(c.Pos()), Discharged, "input IDs converted with shape.ConvertSpatialIdsToExtendedSpatialIds")
 		} else {
-			r.add("WRAPPER", key+" / input conversion", w.Pos(c.Pos()), Violated, "the ID list handed to the extended form is not the converted input list")
+			st := Undecided
+			if resolve(c.Call.Args[0]) == ssa.Value(f.Params[ws.IDsArg]) {
+				st = Violated // the single-zoom IDs are handed over unconverted
+			}
+			r.add("WRAPPER", key+" / input conversion", w.Pos(c.Pos()), st, "the ID list handed to the extended form is not (recognised as) the converted input list")
 		}
 	}
 	// success returns
@@ -727,7 +771,11 @@ func ruleWrapper(w *World, r *Report, ws wrapperSpec) {
 			r.add("WRAPPER", sub, w.Pos(ret.Pos()), Discharged, "returns ConvertExtendedSpatialIdsToSpatialIds(result of the extended form)")
 		} else {
 			// classifyReturn unknown (err passed through) with the same shape is fine
-			r.add("WRAPPER", sub, w.Pos(ret.Pos()), Violated, "the returned list is not the converted result of the extended form ("+describeValue(ret.Results[0])+")")
+			st := Undecided
+			if in, isEx := resolve(ret.Results[0]).(*ssa.Extract); isEx && in.Index == 0 && in.Tuple == ssa.Value(c) {
+				st = Violated // extended IDs are returned unconverted
+			}
+			r.add("WRAPPER", sub, w.Pos(ret.Pos()), st, "the returned list is not (recognised as) the converted result of the extended form ("+describeValue(ret.Results[0])+")")
 		}
 	}
 	if n == 0 {
